@@ -20,6 +20,10 @@ def run(ctx):
         comp_executor.one(ctx, "C01", comp_executor.gen_resubmit_rich(ctx.rng), ctx.rng.randrange(1 << 30), component="executor.resubmit")
 
 
+    # early-decided batches stored as summaries and rebuilt on replay; re-submissions still queued at the decision
+    comp_executor.run_templates(ctx, "C01", [comp_executor.gen_large_early, comp_executor.gen_queued_resubmit], 50, 1500)
+
+
 def search(ctx):
     comp_engine.search(ctx, "C01")
 
